@@ -27,7 +27,7 @@ def check(pid, level, text, note, technique, design, engine, thorough=True):
     }
 
 check("C04", "model_checking",
-      "Every interleaving, at filesystem-call granularity, of 2-3 handle processes (unbounded preemptions; 4 processes preemption-bounded in the thorough tier) running Add / multi-table Addition / CompactAll / auto-compaction from several initial stacks and both hash types is executed on the real stack code; at every change of tables.list the decoded committed state must equal the reference map or the map plus exactly one pending transaction of the committing process, every Add/Commit return is checked against 'success iff committed', and at quiescence a fresh real NewStack must read exactly the model. This is a refinement check on every explored trace, which is what linearizability of a transactional store means here.",
+      "Every interleaving, at filesystem-call granularity, of 2-3 handle processes (unbounded preemptions) and of 4 processes with at most 2 preemptions (3 in the thorough tier) running Add / multi-table Addition / CompactAll / auto-compaction from several initial stacks and both hash types is executed on the real stack code; at every change of tables.list the decoded committed state must equal the reference map or the map plus exactly one pending transaction of the committing process, every Add/Commit return is checked against 'success iff committed', and at quiescence a fresh real NewStack must read exactly the model. This is a refinement check on every explored trace, which is what linearizability of a transactional store means here.",
       E1_NOTE, "stateless DFS over all schedules of the real code with state-cache pruning; refinement against a reference map at every tables.list transition", "DESIGN.md 4, 6/C04", "stackmc")
 check("C05", "model_checking",
       "In the same explorations (plus crash-as-choice and mixed-hash scenarios) the list-integrity invariant is evaluated after every single filesystem mutation of every execution: each listed name exists, decodes as a complete well-formed table (independent decoder) of the stack's hash type, ranges strictly increase, and the real NewStack succeeds on a clone of every distinct (list, tables) state. Because a crash does not change the directory, checking after every mutation covers every crash point of the explored schedules.",
